@@ -145,9 +145,15 @@ func init() {
 		nt := time.Date(num(e["y"]), time.Month(num(e["m"])), num(e["d"])+1, 0, 0, 0, 0, time.UTC)
 		ny, nm, nd := nt.Date()
 		ntext := fmt.Sprintf("%04d-%02d-%02d", ny, int(nm), nd)
-		first := back(date.DefaultParser(reused(fe), 0))
+		buf := reused(fe)
+		first := back(date.DefaultParser(buf, 0))
+		again := back(date.DefaultParser(buf, 0)) // the same buffer, untouched by the caller, once more
+		e["inkept"] = string(buf) == string(fe)
 		second := back(date.DefaultParser(reused([]byte(ntext)), 0))
-		e["reuse"], e["nexttext"] = [][]int{first, second}, S(ntext)
+		e["reuse"], e["nexttext"] = [][]int{first, second, again}, S(ntext)
+		// the basic form appended to a buffer that holds the extended form
+		both, _ := date.DefaultFormatter(append(make([]byte, 0, 64), fe...), d, date.FormatBasic)
+		e["both"] = S(both)
 		return e
 	}
 
@@ -262,6 +268,14 @@ func init() {
 		var s date.Date
 		err := s.Scan(t)
 		e["scan"] = back(s, err)
+		// the same instant seen from a zone nine hours further east (another calendar day for some
+		// times), converted directly afterwards; then the value converted first back to a time
+		off2 := num(e["off"]) + 32400
+		e["off2"] = off2
+		e["r2"] = ymd(date.FromTime(t.In(time.FixedZone("y", off2))))
+		first := date.FromTime(t)
+		tm := first.Time()
+		e["rt"] = []int{tm.Year(), int(tm.Month()), tm.Day(), tm.Hour()*3600 + tm.Minute()*60 + tm.Second(), b2i(tm.Location() == time.UTC)}
 		return e
 	}
 }
